@@ -485,3 +485,11 @@ Definition decide (m : mode) (v : N -> bool) (t : tree) (bans : list answer) : c
       | _ => (opposite (acode (last (actions t) (action Dunno 0))), 0, true)
       end
   end.
+
+(* trees that the configuration code can build: a NotNode always has its (single) operand *)
+Fixpoint wf_node (n : node) : bool :=
+  match n with
+  | Leaf _ => true
+  | Inner _ k cs =>
+      match k, cs with KNot, [] => false | _, _ => true end && forallb wf_node cs
+  end.
